@@ -1,17 +1,17 @@
 SPECIFICATION Spec
 CONSTANTS
-  Role = "prop"
-  SPE = 4
-  EPP = 2
-  MaxEpoch = 2
-  Validators = {1, 2}
-  Actives = {{1}, {1, 2}}
+  Role = "sync"
+  SPE = 6
+  EPP = 3
+  MaxEpoch = 3
+  Validators = {1}
+  Actives = {{1}}
   StartSlots = {0}
   Lags = {0}
   MaxReorgs = 1
   MaxIdx = 1
-  MaxFails = 0
-  InitDuties = FALSE
+  MaxFails = 1
+  InitDuties = TRUE
   Weaken = "none"
 INVARIANT TypeOK
 INVARIANT AtMostOnce
